@@ -95,7 +95,9 @@ def check_root(r, w, root, fi, ps):
             if e.kind == 'first_available':
                 key4 = site(e.fi, e.node, f'decision-var:{e.var}', same=lambda n: isinstance(n, ast.For))
                 rec4 = init_sites.setdefault(key4, {'ok': True, 'e': e, 'pa': pa})
-                if e.prior != ('const', None) and rec4['ok']:
+                # (when the decision variable is the loop variable itself and the "nobody has room" case is the loop's else-branch,
+                #  the variable is rebound by every scan: nothing stale can survive)
+                if e.prior != ('const', None) and rec4['ok'] and not e.d.get('loopvar_else'):
                     rec4.update(ok=False, pa=pa)
                 if e.outcome == 'found':
                     can[e.value] = i
